@@ -27,6 +27,19 @@ Definition check_cc (c0 c1 : float * float * float) (r01 r10 : list (@V2 FNum)) 
   else if negb (pl6 (@intersections_with FNum b a) r10) then 2%Z
   else 0%Z.
 
+(* intersection_interval: start and extent of the chosen interval; a start within rounding of the 0 / 2pi seam is ambiguous *)
+Definition check_cc_interval (c0 c1 : float * float * float) (r : option (float * float)) : Z :=
+  let a := mk c0 in let b := mk c1 in
+  if cc_ambiguous a b then 100%Z
+  else match @intersection_interval FNum a b, r with
+       | None, None => 0%Z
+       | Some i, Some (rs, ra) =>
+           if c6 (AngleInterval_start i) rs && c6 (AngleInterval_angle i) ra then 0%Z
+           else if c6 (AngleInterval_angle i) ra && (0x1.8p2 <? abs (AngleInterval_start i - rs)) then 100%Z else 1%Z
+       | _, _ => 2%Z
+       end.
+Definition both (x y : Z) : Z := if (x =? 0)%Z || (x =? 100)%Z then (if (y =? 0)%Z then x else y) else x.
+
 Definition opt_pair6 (m r : option (@V2 FNum * @V2 FNum)) : bool :=
   match m, r with Some (a, b), Some (c, d) => p6 a c && p6 b d | None, None => true | _, _ => false end.
 Definition opt_segs6 (m r : option (@seg FNum * @seg FNum)) : bool :=
